@@ -5,7 +5,11 @@ case = (kind, w, s, ucode, k, batches, times)
        1: queueStream(batches).countByWindow(w, s) with k consumers
        2: queueStream(batches).updateStateByKey(U[ucode]) with k consumers
        3: window(w, s) (consumers 0..k-1) and updateStateByKey(U[ucode]) (consumers k..2k-1) on ONE source
-  times: the virtual clock value of every tick (the batch duration is 1 s, so w and s are in intervals).
+       4: countByWindow(w, s) (consumers 0..k-1) and, registered after it, updateStateByKey(U[ucode])
+          (consumers k..2k-1) on ONE source
+  times: the virtual clock value of every tick; w and s are in intervals (the batch duration d is 1, 0.5 or 0.1 s
+         depending on the case and window()/countByWindow() are called with w*d, s*d; s = 1 with an even w uses the
+         default slide).
 The implementation side runs the real StreamingContext.start() under the virtual clock of vclock11 and fires the
 callback once per tick; observed: the classes of ssc._dstreams, and per tick the (consumer, rdd.collect()) captures
 plus the class name of an exception that ended the callback."""
@@ -25,8 +29,8 @@ KERNELS = ['Gen/Window.v: win_guard', 'Gen/Window.v: win_trim_cond', 'Gen/Window
            'Gen/Window.v: st_guard/tr_guard/src_guard']
 SHARD = 250
 
-WINDOW, COUNT, STATE, BOTH = 0, 1, 2, 3
-KIND_NAMES = ['window', 'countByWindow', 'updateStateByKey', 'window+updateStateByKey']
+WINDOW, COUNT, STATE, BOTH, COUNT_STATE = 0, 1, 2, 3, 4
+KIND_NAMES = ['window', 'countByWindow', 'updateStateByKey', 'window+updateStateByKey', 'countByWindow+updateStateByKey']
 U_NAMES = ['sum', 'last', 'count', 'append']
 U = [
     lambda vs, s: (s if s is not None else 0) + sum(vs),
@@ -37,13 +41,14 @@ U = [
 
 RULE = ('cases (kind, w, s, update function, consumers k, queue contents, tick times): the doctest histories; exhaustive '
         'w 1..4 x s 1..3 x k 1..3 over a 6-tick history of singleton batches for window and countByWindow, and update '
-        'function x k for a 6-tick keyed history; random histories of up to 8 ticks (queue shorter, equal or longer than the '
+        'function x k for a 6-tick keyed history; thorough tier: every empty/singleton batch pattern and queue length over 6 ticks '
+        'for every (w, s), every presence pattern of two keys over 5 intervals for every update function; random histories of up to 8 ticks (queue shorter, equal or longer than the '
         'number of ticks; batches of 0-3 elements; keys 0..3 that disappear for several intervals), w 1..4, s 1..3, '
         'update functions sum/last/count/append, 1-3 consumers, strictly increasing tick times with gaps 1..3 and (5%) one '
         'repeated time; non-trivial = at least two ticks and a non-empty batch; distinct by canonical JSON of the case')
 ASSUMPTIONS = [
     'tick times are integral floats (the guards only compare them; modelled as Z)',
-    'batch duration 1 s, so window/slide durations are whole numbers of intervals (int(round(d / 1.0)) = d)',
+    'window/slide durations are w*d, s*d for a batch duration d in {1, 0.5, 0.1} s, which int(round(x / d)) maps back to w, s',
     'update functions are pure and total on the generated data; how often they are invoked is not compared',
     'elements of keyed batches are (small int key, int value) pairs; the iteration order of the key set in '
     'RDD.cogroup is unspecified, so state RDDs are compared sorted by key',
@@ -56,7 +61,7 @@ CLASS_CODE = {_ds.DStream: 0, _ds.TransformedDStream: 1, _ds.WindowedDStream: 2,
 
 
 def kind(c):
-    return f'{KIND_NAMES[c[0]]}' + (f'/{U_NAMES[c[3]]}' if c[0] in (STATE, BOTH) else '') + f'/k{c[4]}'
+    return f'{KIND_NAMES[c[0]]}' + (f'/{U_NAMES[c[3]]}' if c[0] in (STATE, BOTH, COUNT_STATE) else '') + f'/k{c[4]}'
 
 
 def _capture(log, j, keyed):
@@ -71,29 +76,38 @@ def _capture(log, j, keyed):
     return f
 
 
+def _durations(c):
+    """Batch duration and the window()/countByWindow() arguments of a case."""
+    knd, w, s, uc, k = c[:5]
+    d = (1.0, 0.5, 0.1)[(w + s + k) % 3]
+    slide = None if (s == 1 and w % 2 == 0) else s * d
+    return d, w * d, slide
+
+
 def impl(c):
     knd, w, s, uc, k, batches, times = c
+    d, wd, sd = _durations(c)
     with VClock() as vc:
         sc = pysparkling.Context()
-        ssc = StreamingContext(sc, 1.0)
+        ssc = StreamingContext(sc, d)
         log = []
         src = ssc.queueStream([list(b) for b in batches])
         if knd == WINDOW:
-            d = src.window(float(w), float(s))
+            x = src.window(wd, sd)
             for j in range(k):
-                d.foreachRDD(_capture(log, j, False))
+                x.foreachRDD(_capture(log, j, False))
         elif knd == COUNT:
-            d = src.countByWindow(float(w), float(s))
+            x = src.countByWindow(wd, sd)
             for j in range(k):
-                d.foreachRDD(_capture(log, j, False))
+                x.foreachRDD(_capture(log, j, False))
         elif knd == STATE:
-            d = src.updateStateByKey(U[uc])
+            x = src.updateStateByKey(U[uc])
             for j in range(k):
-                d.foreachRDD(_capture(log, j, True))
-        elif knd == BOTH:
-            d = src.window(float(w), float(s))
+                x.foreachRDD(_capture(log, j, True))
+        elif knd in (BOTH, COUNT_STATE):
+            x = src.window(wd, sd) if knd == BOTH else src.countByWindow(wd, sd)
             for j in range(k):
-                d.foreachRDD(_capture(log, j, False))
+                x.foreachRDD(_capture(log, j, False))
             e = src.updateStateByKey(U[uc])
             for j in range(k):
                 e.foreachRDD(_capture(log, k + j, True))
@@ -159,18 +173,19 @@ def oracle(c, r):
     iv = _intervals(times)
     site = KIND_NAMES[knd]
     prev = {}     # consumer -> capture of the previous interval
+    aborted = False   # an earlier tick ended with an exception raised by a stream registered before the stateful one
     for (entries, err), n in zip(ticks, iv):
         if n is None:
             continue
         emitting = n % s == 0
         # window / countByWindow consumers
-        if knd in (WINDOW, COUNT, BOTH):
-            wsite = 'window' if knd == BOTH else site
+        if knd in (WINDOW, COUNT, BOTH, COUNT_STATE):
+            wsite = 'window' if knd == BOTH else 'countByWindow' if knd == COUNT_STATE else site
             for j in range(k):
                 got = _of(entries, j)
                 if emitting:
                     win = _window_expected(batches, w, n)
-                    if knd == COUNT:
+                    if knd in (COUNT, COUNT_STATE):
                         all_exhausted = n - min(w, n) >= len(batches)
                         ok = got == [[len(win)]] or (all_exhausted and got == [[]])
                         want = [len(win)]
@@ -191,11 +206,22 @@ def oracle(c, r):
                     elif got and got != [prev[j]]:
                         return (f'{wsite}:changed-between-emissions',
                                 f'interval {n} (w={w}, s={s}, consumer {j}): captured {got!r}, last emission was {prev[j]!r}')
-        if knd in (STATE, BOTH):
+        if knd in (STATE, BOTH, COUNT_STATE):
             want = _state_expected(batches, uc, n)
+            if knd == COUNT_STATE and err is not None:
+                # the callback ended before the stateful stream was stepped: nothing is captured in this interval,
+                # and (see below) the batch of this interval never reaches the state
+                aborted = True
+                continue
             for j in (range(k) if knd == STATE else range(k, 2 * k)):
                 got = _of(entries, j)
                 if got != [want]:
+                    if aborted and s > 1:
+                        return ('updateStateByKey:state:batch-lost-when-earlier-stream-raised:countByWindow-slide>1',
+                                f'interval {n}: captured {got!r}, expected one capture {want!r}; countByWindow(w={w}, s={s}) is '
+                                'registered before updateStateByKey on the same source and raised AttributeError in the '
+                                'tick callback before its first emission, so the stateful stream was not stepped in those '
+                                'intervals while the source had already popped their batches')
                     return (f'updateStateByKey:state:{U_NAMES[uc]}',
                             f'interval {n} (consumer {j}, {k} consumers): captured {got!r}, expected one capture {want!r}'
                             + (f'; callback raised {err}' if err else ''))
@@ -235,11 +261,11 @@ def _keyed_batches(rng, n):
 
 
 def _random_case(rng):
-    knd = rng.choice([WINDOW, WINDOW, COUNT, COUNT, STATE, STATE, STATE, BOTH])
+    knd = rng.choice([WINDOW, WINDOW, WINDOW, COUNT, COUNT, COUNT, STATE, STATE, STATE, STATE, BOTH, BOTH, COUNT_STATE])
     nt = rng.randint(1, 8)
     nb = max(0, nt + rng.choice([-3, -2, -1, 0, 0, 0, 1]))
     w, s, uc, k = rng.randint(1, 4), rng.randint(1, 3), rng.randrange(4), rng.randint(1, 3)
-    batches = _keyed_batches(rng, nb) if knd in (STATE, BOTH) else _plain_batches(rng, nb)
+    batches = _keyed_batches(rng, nb) if knd in (STATE, BOTH, COUNT_STATE) else _plain_batches(rng, nb)
     return (knd, w, s, uc, k, batches, _times(rng, nt))
 
 
@@ -289,6 +315,26 @@ def generate(rng, tier):
             cases.append((knd, w, s, 0, 2, [[1, 2], [], [3]], [1, 2, 3, 4, 5, 6, 7, 8]))
             cases.append((knd, w, s, 0, 1, [[], [], []], [1, 2, 3, 4, 5, 6]))
             cases.append((knd, w, s, 0, 1, [], [1, 2, 3, 4]))
+    # the recorded finding (and its harmless variant with slide 1)
+    cases.append((COUNT_STATE, 2, 2, 0, 1, [[(0, 1)], [(0, 2)], [(0, 3)], [(0, 4)]], [1, 2, 3, 4]))
+    cases.append((COUNT_STATE, 2, 1, 0, 1, [[(0, 1)], [(0, 2)], [(0, 3)], [(0, 4)]], [1, 2, 3, 4]))
+    if tier == 'thorough':
+        # exhaustive: every pattern of empty / singleton batches and every queue length over 6 ticks
+        for w in range(1, 5):
+            for s in range(1, 4):
+                k = 1 + (w + s) % 3
+                for mask in range(64):
+                    full = [[i + 1] if mask >> i & 1 else [] for i in range(6)]
+                    nb = 6 if mask % 3 else mask % 7
+                    cases.append((WINDOW, w, s, 0, k, full[:nb], [1, 2, 3, 4, 5, 6]))
+                    cases.append((COUNT, w, s, 0, k, full[:nb], [1, 2, 3, 4, 5, 6]))
+        # exhaustive: presence patterns of two keys over 5 intervals, every update function
+        for uc in range(4):
+            for m0 in range(32):
+                for m1 in range(32):
+                    b = [([(0, i + 1)] if m0 >> i & 1 else []) + ([(1, 10 + i), (1, -i)] if m1 >> i & 1 else [])
+                         for i in range(5)]
+                    cases.append((STATE, 1, 1, uc, 1 + (m0 + m1) % 3, b, [1, 2, 3, 4, 5, 6]))
     for _ in range(1000 if tier == 'quick' else 10000):
         cases.append(_random_case(rng))
     return cases
@@ -310,7 +356,7 @@ def shrink_candidates(c):
         yield (knd, w - 1, s, uc, k, batches, times)
     if s > 1:
         yield (knd, w, s - 1, uc, k, batches, times)
-    if knd == BOTH:
+    if knd in (BOTH, COUNT_STATE):
         yield (WINDOW, w, s, uc, k, batches, times)
         yield (STATE, w, s, uc, k, batches, times)
     norm = list(range(1, len(times) + 1))
